@@ -53,6 +53,10 @@ def check(run, prog, tier):
     from . import c03
     from ..report import RuleProxy
     c03.rule_G(RuleProxy(run, "C11-L", keep=lambda construct, key: construct == "ElectronicState.energy"), prog)
+    run.rule("C11-M", "the line-shape function g_a(t) is built from the bath functions assigned to the molecules, on the whole time "
+                      "axis: the matrix of correlation functions keeps every function it is given from the first to the last point "
+                      "(no store of a leading part, no cut at an index computed from times)", minimum=1)
+    rule_M(run, prog)
     run.rule("C11-A", "eigenbasis transformations in the aggregate calculation are undone", minimum=4)
     run.rule("C11-B", "half-sided transform is laid on the returned grid", minimum=10)
     run.rule("C11-C", "dipoles enter through scalar products only", minimum=3)
@@ -374,6 +378,44 @@ def rule_K(run, prog):
                        loc=f.loc(bad[0][0]) if bad else f.loc(f.node))
     if n < 3:
         raise AnalysisError("C11-K: only %d coupling functions found" % n)
+
+
+def rule_M(run, prog):
+    """'... equals the direct Fourier integral of ... exp(-g_a(t) - i w_a t)': _excitonic_coft reads the stored copies of
+    the site functions (sbi.CC).  Every store of function values into the rows of the matrix
+    (CorrelationFunctionMatrix.set_correlation_function: self.data[iof, <where>] = fce.data...) covers the whole row with
+    the whole function: `:` on both sides (or no subscript on the right)."""
+    rid = "C11-M"
+    cls = prog.cls("quantarhei.qm.corfunctions.cfmatrix.CorrelationFunctionMatrix")
+    n = 0
+
+    def whole(sl):
+        return isinstance(sl, ast.Slice) and sl.lower is None and sl.upper is None and sl.step is None
+
+    for nme, f in cls.methods.items():
+        if not isinstance(f.node, ast.FunctionDef):
+            continue
+        for st in walk_no_nested(f.node):
+            if not (isinstance(st, ast.Assign) and len(st.targets) == 1 and isinstance(st.targets[0], ast.Subscript)
+                    and norm(st.targets[0].value) in ("self.data", "self._cofts")):
+                continue
+            rhs = st.value
+            base = rhs
+            while isinstance(base, ast.Subscript):
+                base = base.value
+            if not (isinstance(base, ast.Attribute) and base.attr == "data" and norm(base.value) != "self"):
+                continue            # not a copy of a function's values
+            n += 1
+            prog.consulted.add(f.relpath)
+            sl = st.targets[0].slice
+            row_whole = isinstance(sl, ast.Tuple) and len(sl.elts) == 2 and whole(sl.elts[1])
+            rhs_whole = isinstance(rhs, ast.Attribute) or (isinstance(rhs, ast.Subscript) and whole(rhs.slice))
+            run.obligation(rid, f.short, row_whole and rhs_whole, key="whole-row:" + norm(st.targets[0].value),
+                           message="%s stores `%s`: a part of the function's values; the rest of the row keeps zeros, and the line "
+                                   "shapes (and rates) computed from the matrix belong to a function cut off there" % (f.short, norm(st)[:80]),
+                           loc=f.loc(st))
+    if n < 1:
+        raise AnalysisError("C11-M: no store of a function's values into the matrix of correlation functions found")
 
 
 def rule_J(run, prog):
